@@ -50,7 +50,7 @@ func batches(max int) [][]Mem {
 
 func runC07(c *Ctx) {
 	depth, maxBatch := 1, 2
-	cfgs := []Cfg{{}, {Cache: true, Index: 2}, {Async: 1, Compress: true}}
+	cfgs := []Cfg{{}, {Cache: true, Index: 2}, {Async: 1, Compress: true}, {Index: 3}}
 	chunkSizes := []int{0, 1, 2, 3}
 	if c.Tier == "thorough" {
 		depth, maxBatch = 2, 3
